@@ -414,8 +414,11 @@ class C04(Check):
         'ledger (constructed once, copied-from/assigned only while live, destroyed exactly once, every allocation released exactly once) '
         'and nothing is left after the containers are destroyed. step_refines_spec / run_refines_spec: every operation refines the pure '
         'spec in which copies are content-equal and aliased arguments are values; copies_are_deep: after a copy or assignment (also x = x) '
-        'the target has the source\'s content and no history that does not write z changes z; alias_args_as_if_copied / alias_step / '
-        'dealias_is_copy_first: a history with self / own-element arguments has the same contents as its de-aliased history (element '
+        'the target has the source\'s content and the source is unchanged, plus the frame fact (true of every variable, copied or not) that '
+        'no history whose operations do not WRITE z changes z - independence of copy and source is that frame fact together with '
+        'no_leak_no_sharing; alias_args_as_if_copied / alias_step / '
+        'dealias_is_copy_first: a history with self / own-element / own-storage-pointer arguments has the same contents as its de-aliased '
+        'history (element '
         'reference replaced by its value, container argument by an explicit copy). The model is tied to the code by running the extracted '
         'model, the extracted spec and an ASan/UBSan build of the working tree on the same histories with an element type that owns a heap '
         'cell and registers every construction, copy, assignment and destruction: contents, number of live instances, the ordered event '
@@ -424,23 +427,36 @@ class C04(Check):
     level_note = (
         'Trusted: Coq kernel, the spec (LifeSpec.v), extraction + OCaml driver, the harness and its element type, the generators. The '
         'theorems are about the model; the tie to the C++ code is differential (no proof about C++). Granularity: tree shape, bucket chains '
-        'and link fields are not modelled (C01/C02/C03/C05); reads made by comparisons are checked for liveness but not logged; reading the '
+        'and link fields are not modelled (C01/C02/C03/C05) - a broken bucket chain shows only through its lifetime effects (streams '
+        'collide / collide-random use keys that share a bucket); reads made by comparisons are checked for liveness but not logged; reading the '
         '`next` field of a just-destroyed item (HashSet::remove(set) on itself, clear()) is outside the model. "No memory is leaked or freed '
         'twice" is proved for the model\'s allocations (Array storage, item blocks, hash tables); below that (the allocator) it is the '
-        'observation of ASan and of the harness ledger on the explored histories. Not modelled: Array(capacity) constructor, '
-        'append(const T*, n), sort, find, hinted Map/MultiMap insert, iterators returned by the calls.')
+        'observation of ASan and of the harness ledger on the explored histories. live_instances_counted: the expected count (slive) uses two '
+        'implementation facts that the property text does not fix - the number of instances in the embedded end item and the fields per item; '
+        'they are defined next to the model (LifeModel.v), not in the spec. One model function serves several entry points of the code: '
+        'Array::remove(index) / remove(const Iterator&) / removeFront / removeBack, and remove(iterator) / removeFront / removeBack of the '
+        'node containers (ops remat, rematit, rempop; all driven). Entry points NOT driven and not modelled: Array(capacity), '
+        'HashMap/HashSet/PoolMap(capacity), List::sort, find, hinted Map/MultiMap insert(position, key, value), PoolList::append() without and '
+        'with 2..7 arguments, iterators returned by the calls.')
     rule = (
         'cases = histories over 3 container variables of one kind (new / del / copy-construct / assign / swap / clear / insert with value or '
-        'own-element references / remove at / remove key / add-all / remove-all / reserve / resize). Streams: corpus witnesses; random '
+        'own-element references / remove at index or iterator / Array::remove(Iterator) / removeFront / removeBack / remove key / add-all / '
+        'remove-all / reserve / resize / Array::append(pointer into an array - mostly its own -, n)). Streams: corpus witnesses; random '
         'mostly-valid histories per kind with 25% element-reference arguments and 40% self arguments; a malformed stream (dead variables, '
-        'out-of-range indices, wrong-typed references, mixed kinds); an Array boundary stream (append(a[i]), resize(m, a[i]), append(a) at '
-        'and away from capacity n|3 for every size 0..8, with/without reserve); a self-argument stream per kind at sizes around the '
-        'item-block size; exhaustive histories of depth 3 (thorough: depth 4) for every kind over a 10-15 op '
-        'alphabet. A case is non-trivial when the implementation performed at least 4 operations and constructed at least 3 element '
-        'instances; distinct = distinct op text.')
+        'out-of-range indices and ranges, wrong-typed references, mixed kinds); random histories of the hash-table kinds with keys that share '
+        'buckets (1, 501, 1001, 1501 / 2, 502 at 500 buckets); a collision stream (every insertion order of 3 (thorough: 4) colliding keys, '
+        'front/back insertion, one removed through each removing entry point, then looked up / removed again / re-inserted / another '
+        'colliding key inserted); a swap stream (both sides hold spare item slots, then both sides grow and shrink); an Array boundary stream '
+        '(append(a[i]), resize(m, a[i]), append(a), append(&a[i], m), remove(iterator) at and away from capacity n|3 for every size 0..8, '
+        'with/without reserve); a self-argument stream per kind at sizes around the item-block size; exhaustive histories of depth 3 '
+        '(thorough: depth 4) for every kind over a 11-18 op alphabet (table kinds: the two keys collide). A case is non-trivial when the '
+        'implementation performed at least 4 operations and constructed at least 3 element instances; distinct = distinct op text.')
     assumptions = ['element type: copy constructor / assignment read the source before writing, destructor releases the owned cell '
                    '(harness type Tr); payloads are ints; hash(key) = payload',
-                   'the harness passes value arguments as temporaries constructed before and destroyed after the call (key first)']
+                   'the harness passes value arguments as temporaries constructed before and destroyed after the call (key first); element '
+                   'references are passed as `const T&` bound to the stored instance, except PoolList::append(v), where template deduction '
+                   'makes the parameter a by-value copy (modelled: copy before, destroy after the call)',
+                   'Array::append(const T*, n) is driven with pointers into live arrays only (its own or another array, i + n <= size)']
 
     def nontrivial(self, case, obs):
         oks = sum(1 for l in obs if l.startswith('ok'))
